@@ -104,3 +104,41 @@ Theorem C09_unguarded_cache_refuted :
   exists progs sched, FlushProofs.two_ids (Flush.run true false (Flush.init progs) sched) = true.
 Proof. exact FlushProofs.unguarded_cache_refuted. Qed.
 Print Assumptions C09_unguarded_cache_refuted.
+
+(* the writers of the fields and tag keys of one metric and the readers of its schema, with PrepareFlush and the two halves
+   of Flush placed anywhere between their steps (shared schema objects in the mutable store, the immutable store, the
+   cache and the callers' hands; files written by deltas): every program and every schedule - what a writer was given is
+   what a later GetSchema shows, all writers agree on a name, different names of a kind have different ids *)
+From LinDBV.C09 Require SchemaFlush SchemaFlushProofs.
+Theorem C09_schema_flush_stable_injective (progs : list (list SchemaFlush.sreq)) sched :
+  let s := SchemaFlush.run true true true true (SchemaFlush.init progs) sched in
+  (forall t r v, In t (SchemaFlush.threads s) -> In (r, v) (SchemaFlush.results t) -> SchemaFlush.lookup s r = Some v) /\
+  (forall t1 t2 r1 r2 v1 v2, In t1 (SchemaFlush.threads s) -> In t2 (SchemaFlush.threads s) ->
+     In (r1, v1) (SchemaFlush.results t1) -> In (r2, v2) (SchemaFlush.results t2) ->
+     fst r1 = fst r2 -> (snd r1 = snd r2 <-> v1 = v2)).
+Proof. exact (SchemaFlushProofs.schema_flush_stable_injective progs sched). Qed.
+Print Assumptions C09_schema_flush_stable_injective.
+
+(* the code before each of its four repairs gives two names of a kind one id *)
+Theorem C09_no_immutable_recheck_refuted :
+  SchemaFlushProofs.shared_id (SchemaFlush.run false true true true
+    (SchemaFlush.init [[SchemaFlushProofs.f 1]; [SchemaFlushProofs.f 2]]) [0; 1; 1; 2; 0]) = true.
+Proof. exact SchemaFlushProofs.no_immutable_recheck_refuted. Qed.
+Print Assumptions C09_no_immutable_recheck_refuted.
+Theorem C09_stale_schema_after_flush_refuted :
+  SchemaFlushProofs.shared_id (SchemaFlush.run true false true true
+    (SchemaFlush.init [[SchemaFlushProofs.f 1]; [SchemaFlushProofs.f 2]]) [0; 1; 1; 2; 3; 4; 0]) = true.
+Proof. exact SchemaFlushProofs.stale_schema_after_flush_refuted. Qed.
+Print Assumptions C09_stale_schema_after_flush_refuted.
+Theorem C09_unguarded_schema_cache_refuted :
+  SchemaFlushProofs.shared_id (SchemaFlush.run true true false true
+    (SchemaFlush.init [[SchemaFlushProofs.f 1; SchemaFlushProofs.f 3]; [SchemaFlush.Get]; [SchemaFlushProofs.f 4]])
+    [0; 0; 3; 4; 5; 1; 0; 0; 0; 3; 4; 5; 1; 2; 2; 2]) = true.
+Proof. exact SchemaFlushProofs.unguarded_schema_cache_refuted. Qed.
+Print Assumptions C09_unguarded_schema_cache_refuted.
+Theorem C09_mark_all_persisted_refuted :
+  SchemaFlushProofs.shared_id (SchemaFlush.run true true true false
+    (SchemaFlush.init [[SchemaFlushProofs.f 1]; [SchemaFlushProofs.f 2]; [SchemaFlushProofs.f 3]])
+    [0; 0; 3; 4; 1; 1; 5; 3; 4; 5; 2; 2; 2]) = true.
+Proof. exact SchemaFlushProofs.mark_all_persisted_refuted. Qed.
+Print Assumptions C09_mark_all_persisted_refuted.
